@@ -1,7 +1,7 @@
 (* C14 - the property theorems, nothing else.  Each is closed by [exact] of a lemma proved in coq/Persist/*Proofs.v
    and followed by Print Assumptions. *)
 From Icv Require Import Base.Tac Persist.PsValue Persist.PsModel Persist.PsValueProofs
-  Persist.PsAtomicProofs Persist.PsRestoreProofs Persist.PsRoundtripProofs Persist.PsStateProofs Persist.PsModattrProofs.
+  Persist.PsAtomicProofs Persist.PsRestoreProofs Persist.PsRoundtripProofs Persist.PsStateProofs Persist.PsModattrProofs Persist.PsFrameProofs Persist.PsSeqProofs Persist.PsSpineProofs Persist.PsReloadProofs Persist.PsHistoryProofs.
 From Coq Require Import NArith.
 Local Open Scope N_scope.
 
@@ -70,6 +70,62 @@ Theorem C14_restore_oracle_accepts_model : forall fe attr v now1 now2 o o1,
 Proof. exact ps_restore_oracle_accepts. Qed.
 Print Assumptions C14_restore_oracle_accepts_model.
 
+(* frame: ModifyAttribute on p (whatever its outcome) leaves the value at every path q that is token-incomparable
+   with p (neither dotted path is a prefix of the other) untouched; it records at most the one entry p -> old value *)
+Theorem C14_modify_frame : forall fe p v now o ok o',
+  ps_modify_attribute fe p v true now o = (ok, o') ->
+  ps_cfg_field fe p -> ps_is_dict (ps_get_attr p o) = false ->
+  (forall q, ps_incomp p q -> ps_get_attr q o' = ps_get_attr q o) /\
+  (ps_orig_dict o' = ps_orig_dict o \/
+   (ps_dcontains p (ps_orig_dict o) = false /\ ps_orig_dict o' = ps_dset p (ps_get_attr p o) (ps_orig_dict o))) /\
+  (if ok then ps_dcontains p (ps_orig_dict o') = true else ps_m_fields o' = ps_m_fields o).
+Proof. exact ps_modify_spec. Qed.
+Print Assumptions C14_modify_frame.
+
+(* frame: RestoreAttribute on p, when the only original_attributes entries at or below p are keyed p itself *)
+Theorem C14_restore_frame : forall fe p now o ok o' x,
+  ps_restore_attribute fe p true now o = (ok, o') ->
+  ps_own_only p x (ps_orig_dict o) ->
+  (forall fi, ps_filookup fe (ps_field_of p) = Some fi -> ps_coerce fi x = x) ->
+  (forall q, ps_incomp p q -> ps_get_attr q o' = ps_get_attr q o) /\
+  (forall kx, In kx (ps_orig_dict o') <-> In kx (ps_orig_dict o) /\ (ok = true -> fst kx <> p)) /\
+  (ok = true -> ps_get_attr p o' = if ps_dcontains p (ps_orig_dict o) then x else ps_get_attr p o) /\
+  (ok = false -> o' = o).
+Proof. exact ps_restore_spec. Qed.
+Print Assumptions C14_restore_frame.
+
+(* THE SEQUENCE THEOREM.  P: any set of dotted paths of configuration attributes that are pairwise token-incomparable
+   (negated signature of restore-overlap), o0: the object as configured (values of the fields' types, nothing modified).
+   For EVERY history h of ModifyAttribute / RestoreAttribute calls on paths of P - the same path any number of times,
+   succeeding or failing - in which no ModifyAttribute meets a dictionary at its path (negated signature of
+   restore-dict-original), and for every list rs of restore calls on paths of P that covers the modified paths, in any
+   order (restores of listed paths always succeed, C14_restore_succeeds; failing ones change nothing): every path of P
+   and every path incomparable with P reads exactly as configured, and original_attributes is empty. *)
+Theorem C14_restore_sequence : forall fe P o0,
+  (forall p p', In p P -> In p' P -> p <> p' -> ps_incomp p p') ->
+  (forall p, In p P -> ps_cfg_field fe p) ->
+  (forall p, In p P -> forall fi, ps_filookup fe (ps_field_of p) = Some fi -> ps_coerce fi (ps_get_attr p o0) = ps_get_attr p o0) ->
+  forall h rs,
+  ps_orig_dict o0 = [] ->
+  ps_hist_ok fe P o0 h ->
+  let o := ps_run fe o0 h in
+  (forall r, In r rs -> In (fst r) P) ->
+  (forall k x, In (k, x) (ps_orig_dict o) -> In k (map fst rs)) ->
+  let o' := ps_run fe o (ps_restores rs) in
+  (forall p, In p P -> ps_get_attr p o' = ps_get_attr p o0) /\
+  (forall q, (forall p, In p P -> ps_incomp p q) -> ps_get_attr q o' = ps_get_attr q o0) /\
+  ps_orig_dict o' = [].
+Proof. exact ps_restore_sequence_total. Qed.
+Print Assumptions C14_restore_sequence.
+
+(* while a path is listed in original_attributes its intermediate dictionaries exist (invariant of every such history,
+   ps_spine_run), hence RestoreAttribute of a listed configuration attribute reports success *)
+Theorem C14_restore_succeeds : forall fe p now o,
+  ps_cfg_field fe p -> ps_dcontains p (ps_orig_dict o) = true -> ps_spine_attr p o ->
+  fst (ps_restore_attribute fe p true now o) = true.
+Proof. exact ps_restore_succeeds. Qed.
+Print Assumptions C14_restore_succeeds.
+
 Theorem C14_restore_dict_original_refuted :
   (* original value an empty dictionary: nothing recorded, restore is a no-op *)
   (let o := ps_w_obj (PsDict [([97], PsDict [])]) in
@@ -128,6 +184,68 @@ Theorem C14_modattr_roundtrip : forall fe cur base ver now,
 Proof. exact ps_modattr_roundtrip. Qed.
 Print Assumptions C14_modattr_roundtrip.
 
+(* the same for NESTED dotted keys.  [cur]: any object reached from the configured object o0 by a history of
+   modify/restore calls on pairwise incomparable paths P in which no modify met a dictionary ([ps_reload_inv], shown to
+   be an invariant of every such history by ps_reload_run - this is where "no dict->scalar replacement" and the
+   overlap signature enter; it also carries that every listed path was walkable in the configuration).
+   [ps_listed_ok] for every listed key: its current value survives the writer (<= 6 fractional digits,
+   C14_modattr_six_decimals) and a top-level value is of its field's type.  Then: the dump succeeds, the replay on o0 succeeds, every path of P and
+   every path incomparable with P reads as before the restart, original_attributes has the same entries, the version
+   is restored; with nothing listed the script is empty and the replay is the identity. *)
+Theorem C14_modattr_roundtrip_nested : forall fe P o0,
+  (forall p p', In p P -> In p' P -> p <> p' -> ps_incomp p p') ->
+  (forall p, In p P -> ps_cfg_field fe p) ->
+  (forall p, In p P -> forall fi, ps_filookup fe (ps_field_of p) = Some fi -> ps_fi_nomod fi = false) ->
+  (forall p, In p P -> forall fi, ps_filookup fe (ps_field_of p) = Some fi -> ps_coerce fi (ps_get_attr p o0) = ps_get_attr p o0) ->
+  forall cur, ps_reload_inv P o0 cur ->
+  forall now, (forall k x, In (k, x) (ps_orig_dict cur) -> ps_listed_ok fe cur k) ->
+  forall ver, ps_orig_dict o0 = [] ->
+  exists script r,
+    ps_dump_modattrs cur = Some script /\ ps_replay_modattrs fe script ver now o0 = (true, r) /\
+    (forall p, In p P -> ps_get_attr p r = ps_get_attr p cur) /\
+    (forall q, (forall p, In p P -> ps_incomp p q) -> ps_get_attr q r = ps_get_attr q cur) /\
+    (forall k x, In (k, x) (ps_orig_dict r) <-> In (k, x) (ps_orig_dict cur)) /\
+    (ps_orig_dict cur <> [] -> ps_m_version r = ver) /\
+    (ps_orig_dict cur = [] -> script = [] /\ r = o0).
+Proof. exact ps_reload_roundtrip. Qed.
+Print Assumptions C14_modattr_roundtrip_nested.
+
+(* [ps_reload_inv] holds after every history of the allowed kind *)
+Theorem C14_reload_inv_reachable : forall fe P o0,
+  (forall p p', In p P -> In p' P -> p <> p' -> ps_incomp p p') ->
+  (forall p, In p P -> ps_cfg_field fe p) ->
+  (forall p, In p P -> forall fi, ps_filookup fe (ps_field_of p) = Some fi -> ps_coerce fi (ps_get_attr p o0) = ps_get_attr p o0) ->
+  forall h o, ps_reload_inv P o0 o -> ps_hist_ok fe P o h -> ps_reload_inv P o0 (ps_run fe o h).
+Proof. exact ps_reload_run. Qed.
+Print Assumptions C14_reload_inv_reachable.
+
+(* HISTORIES WITH DUMP AS AN OPERATION: the state is the object plus the script in modified-attributes.conf.  After any
+   history of modify / restore / dump operations of the allowed kind, either nothing was ever dumped and there is no
+   file, or the file holds exactly the script of the LAST dump (H = H1 ++ dump :: H2 with no dump in H2), and replaying
+   it on the configured object yields the values the object had at that dump; if everything had been restored before
+   that dump the script is EMPTY and the replay changes nothing (a stale file from an earlier dump cannot survive). *)
+Theorem C14_history_reload : forall fe P o0,
+  (forall p p', In p P -> In p' P -> p <> p' -> ps_incomp p p') ->
+  (forall p, In p P -> ps_cfg_field fe p) ->
+  (forall p, In p P -> forall fi, ps_filookup fe (ps_field_of p) = Some fi -> ps_fi_nomod fi = false) ->
+  (forall p, In p P -> forall fi, ps_filookup fe (ps_field_of p) = Some fi -> ps_coerce fi (ps_get_attr p o0) = ps_get_attr p o0) ->
+  forall H ver now,
+  ps_orig_dict o0 = [] -> ps_hhist_ok fe P o0 H ->
+  match snd (ps_hrun fe (o0, None) H) with
+  | None => forallb (fun h => negb (ps_is_dump h)) H = true
+  | Some script =>
+    exists H1 H2, H = H1 ++ PsHDump :: H2 /\ forallb (fun h => negb (ps_is_dump h)) H2 = true /\
+      let od := fst (ps_hrun fe (o0, None) H1) in
+      ps_dump_modattrs od = Some script /\
+      exists r, ps_replay_modattrs fe script ver now o0 = (true, r) /\
+        (forall p, In p P -> ps_get_attr p r = ps_get_attr p od) /\
+        (forall q, (forall p, In p P -> ps_incomp p q) -> ps_get_attr q r = ps_get_attr q od) /\
+        (forall k x, In (k, x) (ps_orig_dict r) <-> In (k, x) (ps_orig_dict od)) /\
+        (ps_orig_dict od = [] -> script = [] /\ r = o0)
+  end.
+Proof. exact ps_history_reload. Qed.
+Print Assumptions C14_history_reload.
+
 (* values all of whose numbers have at most six fractional digits (any nesting of arrays and dictionaries) come back
    unchanged from ConfigWriter::EmitNumber + lexer *)
 Theorem C14_modattr_six_decimals : forall v, ps_six v = true -> ps_writer_codec v = v.
@@ -167,6 +285,24 @@ Print Assumptions C14_atomic_oracle_accepts_model.
 
 (* non-vacuity: the premises of C14_restore are met by a nested path whose leaf does not exist; the value at the path
    returns to null, while the enclosing dictionary keeps a null entry (observation "null leaf") *)
+Example C14_restore_sequence_nonvacuous :
+  ps_incomp ps_q_a ps_q_bc /\ ps_incomp ps_q_a ps_q_xyz /\ ps_incomp ps_q_a ps_q_n /\
+  ps_incomp ps_q_bc ps_q_xyz /\ ps_incomp ps_q_bc ps_q_n /\ ps_incomp ps_q_xyz ps_q_n /\
+  ps_hist_ok ps_q_fe ps_q_P ps_q_o0 ps_q_h /\
+  ps_run_ok ps_q_fe (ps_run ps_q_fe ps_q_o0 ps_q_h) (ps_restores ps_q_rs) = true /\
+  map fst (ps_orig_dict (ps_run ps_q_fe ps_q_o0 ps_q_h)) = [ps_q_n; ps_q_a; ps_q_bc; ps_q_xyz] /\
+  ps_orig_dict (ps_run ps_q_fe (ps_run ps_q_fe ps_q_o0 ps_q_h) (ps_restores ps_q_rs)) = [] /\
+  ps_dget [118; 97; 114; 115] (ps_m_fields (ps_run ps_q_fe (ps_run ps_q_fe ps_q_o0 ps_q_h) (ps_restores ps_q_rs)))
+    = PsDict [([97], PsNum 5 0); ([98], PsDict [([99], PsEmpty); ([100], PsBool true)]); ([120], PsDict [([121], PsEmpty)])].
+Proof. exact ps_restore_sequence_nonvacuous. Qed.
+
+Example C14_history_nonvacuous :
+  ps_hhist_ok ps_q_fe ps_q_P ps_q_o0 ps_y_H /\
+  snd (ps_hrun ps_q_fe (ps_q_o0, None) (firstn 4 ps_y_H))
+    = Some [(ps_q_n, PsStr [121]); (ps_q_a, PsNum 123456 6); (ps_q_bc, PsDict [([107], PsStr [118])])] /\
+  snd (ps_hrun ps_q_fe (ps_q_o0, None) ps_y_H) = Some [].
+Proof. exact ps_history_reload_nonvacuous. Qed.
+
 Example C14_modattr_nonvacuous :
   ps_orig_dict ps_r_base = [] /\
   ps_orig_dict ps_r_cur <> [] /\
